@@ -63,6 +63,12 @@ def cases(tier, seed):
                             out.append(dict(type="solvelike", cfg=cfg))
                             if (start, every) in ((0, 1), (1, 2), (3, 3), (0, 3)) and ki == 0 and si in (0, 3):
                                 out.append(dict(type="solve", cfg=cfg))
+    # the same schedule with a (one-unknown, one-equation) system loss
+    for (kind, dim) in (("ode", 0), ("statio", 2), ("nonstatio", 2)):
+        for (start, every) in ((0, 1), (1, 2)):
+            st = SIZES[2]
+            sx = SIZES[1] if kind == "nonstatio" else st
+            out.append(dict(type="solvelike", cfg=dict(_cfg(kind, dim, start, every, st, sx, keys[0], 0), system=True)))
     for (kind, dim) in (("ode", 0), ("statio", 2), ("nonstatio", 2)):
         for (start, every) in ((0, 1), (1, 2), (2, 1), (0, 2)):
             for si in (0, 3):
@@ -84,7 +90,7 @@ def horizon(cfg):
 
 def run_case(case):
     cfg = case["cfg"]
-    site = f"rar/{cfg['kind']}{cfg['dim'] or ''}"
+    site = f"rar/{cfg['kind']}{cfg['dim'] or ''}" + ("/system_loss" if cfg.get("system") else "")
     with warnings.catch_warnings():
         warnings.simplefilter("ignore")
         g0, loss, params, _ = rarlib.build(cfg, record=False)
